@@ -136,14 +136,14 @@ def match_faces(R, m, index):
         found = None
         for dk in index.get(key, []):
             Q = m.ring_pos(dk)
-            if ref.same_cycle_pos(P, Q, tol=2e-4 if np.any(np.abs(Q[:, 2]) > 1 - 1e-7) else 1e-9):
+            if ref.same_cycle_pos_band(P, Q):
                 found = dk
                 break
         if found is None:
             # tolerate rounding of the key: brute force
             for dk in range(m.n_face):
                 Q = m.ring_pos(dk)
-                if len(Q) == len(P) and ref.same_cycle_pos(P, Q, tol=2e-4 if np.any(np.abs(Q[:, 2]) > 1 - 1e-7) else 1e-9):
+                if len(Q) == len(P) and ref.same_cycle_pos_band(P, Q):
                     found = dk
                     break
         if found is None:
@@ -428,6 +428,11 @@ def data_checks(ctx, U, gsrc, sel, m, en, index, rng, sig, det, must=()):
 def run_case(ctx, case):
     U = ux.ux()
     m = gen.build(case["mesh"])
+    if int(np.sum(np.abs(m.xyz[:, 2]) > 1 - 1.01e-8)) >= 2:
+        # two or more nodes inside the library's pole-snapping band are reported at the very same point (the pole): the faces
+        # between them cannot be told apart by their reported corners - restrictions of such a mesh are not judged
+        ctx.observe("skipped_several_nodes_reported_at_a_pole")
+        return
     factory, src_kind = make_factory(case, m)
     rng = np.random.default_rng([case["sseed"], 7])
     try:
